@@ -714,7 +714,7 @@ func (c *libCtx) merge(mi *msgInfo, dst, src *V, what string) {
 		o.count("merge_panic")
 		if ps := fmt.Sprint(pan); panD == nil && strings.Contains(dst.String(), "(s n)") && (strings.Contains(ps, "cannot merge into invalid") || strings.Contains(ps, "merging into nil message")) {
 			// Mutable of a oneof message member whose wrapper holds a nil pointer returns the invalid message
-			key = "lib/" + c.id(mi) + "/merge-oneof-nil-payload"
+			key = "lib/merge-oneof-nil-payload/" + c.id(mi)
 		}
 		o.withKey(key).prop("C10", (pan != nil) == (panD != nil), fmt.Sprintf("proto.Merge(dst, src) on %s (%s): generated panic=%v, reference panic=%v; dst=%s src=%s", c.id(mi), what, pan, panD, dst, src))
 		return
